@@ -17,6 +17,7 @@ import (
 	"sort"
 	"strings"
 	"sync"
+	"sync/atomic"
 	"testing"
 	"time"
 
@@ -760,16 +761,24 @@ func TestC17_R_ConcurrentFirstReificationsOfAProcess(t *testing.T) {
 		}
 		plains = append(plains, pn)
 	}
-	const G = 12
+	const G = 48
 	errs := make([]string, G)
 	var wg sync.WaitGroup
-	start := make(chan struct{})
+	// (a spinning start, so that the first calls really overlap on all cores)
+	var ready, start atomic.Int32
 	for g := 0; g < G; g++ {
 		wg.Add(1)
 		go func(g int) {
 			defer wg.Done()
-			<-start
+			ready.Add(1)
+			for start.Load() == 0 {
+			}
 			p, _ := safe(func() {
+				// the very first call of every goroutine: one reification, nothing else before it
+				if _, err := ls.KnownReifiers["unixfs"](lcS, plains[len(plains)-1-g%4], ls); err != nil {
+					errs[g] = fmt.Sprintf("goroutine %d: first reification (a sharded directory): %v", g, err)
+					return
+				}
 				for i := 0; i < len(plains); i++ {
 					k := (g + i) % len(plains)
 					reifier := []string{"unixfs", "unixfs-preload"}[(g+i)%2]
@@ -798,7 +807,10 @@ func TestC17_R_ConcurrentFirstReificationsOfAProcess(t *testing.T) {
 			}
 		}(g)
 	}
-	close(start)
+	for ready.Load() < int32(min(G, runtime.GOMAXPROCS(0))) {
+		runtime.Gosched()
+	}
+	start.Store(1)
 	c17Wait(&wg, "first reifications of the process")
 	for _, e := range errs {
 		if e != "" {
